@@ -1,12 +1,486 @@
-import Operon.Model.Cffl
+import Operon.Lemmas.C08
 import Operon.Gen.GateTable
+/-!
+# C08 — circuit breaker trips at the threshold, isolates while open, recovers half-open
+
+Property theorems only.  Model: `Operon/Model/Cffl.lean` (`run`, `exec`), tied to
+`operon_ai/topology/loops.py` by extractor E2 (`Operon/Gen/GateTable.lean`: the breaker classification of
+`run` evaluated on the real code) and by the differential correspondence of `harness/vf/props/c08.py`.
+
+All statements quantify over every configuration (gate logic, threshold — any integer —, timeout — any
+integer number of microseconds —, cache on/off, TTL, per-call energy cost), every pair of hash functions,
+every state or every history (`List Op`: requests with arbitrary agent responses incl. exceptions, clock
+advances of any length, manual resets, cache clears), unless a hypothesis says otherwise.
+
+Vocabulary: the *kind* of a request (`Out.kind`) says how it was handled — `circuitOpen` (rejected),
+`cacheHit`, `agentExc` (an agent raised), `gated e` (both agents answered; `e` is what the breaker records),
+`raised` (un-encodable prompt).  A *failure outcome* is `agentExc` or `gated failure` (`Kind.isFailure`);
+`c08_failure_outcomes` / `c08_block_vote_never_failure` say which requests those are in terms of the agents'
+verdicts.
+-/
 namespace Operon.Cffl
 open Operon.Gen
 
-/-- The extracted breaker classification of `run` agrees with the model's `classifyRun` on every row. -/
+/-- E2: the breaker classification of the real `run`, evaluated on every (success, blocked) flag pair × every
+    pair of verdict classes, agrees with the model's `classifyRun` on every row, the table is complete
+    (2·2·5·5 rows, one per combination) and `action_type` is only ever compared against the class-defining
+    literals. -/
 theorem c08_run_classification_table :
-    GateTable.ok = true ∧
-    ∀ r ∈ GateTable.runClass, classifyRun r.1 r.2.1 (classify r.2.2.1) (classify r.2.2.2.1) = r.2.2.2.2 := by
-  decide +kernel
+    GateTable.ok = true ∧ GateTable.shapeOk = true ∧
+    (∀ l ∈ GateTable.literals, classify l ≠ .other) ∧
+    (∀ r ∈ GateTable.runClass, classifyRun r.1 r.2.1 (classify r.2.2.1) (classify r.2.2.2.1) = r.2.2.2.2) ∧
+    (∀ (s b : Bool) (z y : Cls), ∃ r ∈ GateTable.runClass,
+        r.1 = s ∧ r.2.1 = b ∧ classify r.2.2.1 = z ∧ classify r.2.2.2.1 = y) := by
+  have h : GateTable.ok = true ∧ GateTable.shapeOk = true ∧
+      (∀ l ∈ GateTable.literals, classify l ≠ .other) ∧
+      (∀ r ∈ GateTable.runClass, classifyRun r.1 r.2.1 (classify r.2.2.1) (classify r.2.2.2.1) = r.2.2.2.2) ∧
+      (∀ s ∈ [true, false], ∀ b ∈ [true, false], ∀ z ∈ allCls, ∀ y ∈ allCls, ∃ r ∈ GateTable.runClass,
+          r.1 = s ∧ r.2.1 = b ∧ classify r.2.2.1 = z ∧ classify r.2.2.2.1 = y) := by
+    decide +kernel
+  refine ⟨h.1, h.2.1, h.2.2.1, h.2.2.2.1, ?_⟩
+  intro s b z y
+  exact h.2.2.2.2 s (by cases s <;> decide) b (by cases b <;> decide) z (mem_allCls z) y (mem_allCls y)
+
+/-! ### which requests are failures -/
+
+/-- How an admitted request that is not answered from the cache is classified, in terms of what the agents
+    did: an exception of either agent is a failure outcome; when both answer, the outcome is what `classifyRun`
+    makes of the gate's result. -/
+theorem c08_failure_outcomes (cfg : Cfg) (H : Hashes) (s : State) (p : Prompt) (zr yr : Resp)
+    (hadm : (run cfg H s p zr yr).2.kind ≠ .circuitOpen) (hhit : (run cfg H s p zr yr).2.kind ≠ .cacheHit)
+    (hraise : (run cfg H s p zr yr).2.kind ≠ .raised) :
+    (run cfg H s p zr yr).2 = consultOut cfg H p zr yr ∧
+    ((zr = .exc ∨ yr = .exc) → (run cfg H s p zr yr).2.kind = .agentExc) ∧
+    (∀ z y, zr = .ret z → yr = .ret y →
+      (run cfg H s p zr yr).2.kind =
+        .gated (classifyRun (applyGate cfg.gate z y).success (applyGate cfg.gate z y).blocked z y)) := by
+  have hb := run_br cfg H s p zr yr
+  rw [run_eq] at hadm hhit hraise ⊢
+  cases hr : rejects cfg s.now s.br
+  · simp only [hr, Bool.false_eq_true, ↓reduceIte] at hadm hhit hraise ⊢
+    rcases afterCircuit_out cfg H { s with br := admit cfg s.now s.br } p zr yr with h | h | h
+    · refine ⟨h.1, ?_, ?_⟩
+      · rintro (rfl | rfl) <;> rw [h.1]
+        · rfl
+        · cases zr <;> rfl
+      · intro z y hz hy
+        subst hz hy
+        rw [h.1] at hraise ⊢
+        unfold consultOut at hraise ⊢
+        cases hp : p.enc <;> simp [hp] at hraise ⊢
+        simp [gateResult]
+    · obtain ⟨_, _, _, e, _, _, _, he⟩ := h
+      rw [he] at hhit; exact absurd rfl hhit
+    · rw [h.2.2] at hraise; exact absurd rfl hraise
+  · simp [hr] at hadm
+
+/-- The gate's result is a failure for the breaker exactly when it is unsuccessful and neither agent voted
+    BLOCK — for every gate logic and every pair of verdict classes. -/
+theorem c08_gate_failure_iff (g : Gate) (z y : Cls) :
+    classifyRun (applyGate g z y).success (applyGate g z y).blocked z y = .failure ↔
+      ((applyGate g z y).success = false ∧ z ≠ .block ∧ y ≠ .block) := by
+  cases g <;> cases z <;> cases y <;> decide
+
+/-- An executor FAILURE that is not accompanied by a BLOCK vote and leaves the request blocked is a failure
+    outcome, under every gate logic. -/
+theorem c08_executor_failure_is_failure (g : Gate) (y : Cls) (hy : y ≠ .block)
+    (hb : (applyGate g .failure y).blocked = true) :
+    classifyRun (applyGate g .failure y).success (applyGate g .failure y).blocked .failure y = .failure := by
+  revert hy hb; cases g <;> cases y <;> decide
+
+/-- Intentional blocks are never counted as failures: whenever either agent votes BLOCK the request is not a
+    failure outcome — for every gate logic, whatever the other agent answers. -/
+theorem c08_block_vote_never_failure (g : Gate) (z y : Cls) (h : z = .block ∨ y = .block) :
+    classifyRun (applyGate g z y).success (applyGate g z y).blocked z y ≠ .failure := by
+  revert h; cases g <;> cases z <;> cases y <;> decide
+
+/-- A request that is not blocked is recorded as a success. -/
+theorem c08_unblocked_is_success (g : Gate) (z y : Cls) (h : (applyGate g z y).blocked = false) :
+    classifyRun (applyGate g z y).success (applyGate g z y).blocked z y = .success := by
+  revert h; cases g <;> cases z <;> cases y <;> decide
+
+/-- A failure outcome increments the failure count and the total error count by exactly one and stamps the
+    current time as the last failure; any other request leaves total errors, last failure and trips alone,
+    never increases the failure count and never opens a breaker that was not open. -/
+theorem c08_failure_recorded (cfg : Cfg) (H : Hashes) (s : State) (p : Prompt) (zr yr : Resp) :
+    ((run cfg H s p zr yr).2.kind.isFailure = true →
+      (run cfg H s p zr yr).1.br.failures = s.br.failures + 1 ∧
+      (run cfg H s p zr yr).1.br.totalErrors = s.br.totalErrors + 1 ∧
+      (run cfg H s p zr yr).1.br.lastFailure = some s.now) ∧
+    ((run cfg H s p zr yr).2.kind.isFailure = false →
+      (run cfg H s p zr yr).1.br.totalErrors = s.br.totalErrors ∧
+      (run cfg H s p zr yr).1.br.failures ≤ s.br.failures ∧
+      (run cfg H s p zr yr).1.br.lastFailure = s.br.lastFailure ∧
+      (run cfg H s p zr yr).1.br.trips = s.br.trips ∧
+      ((run cfg H s p zr yr).1.br.cstate = .opened → s.br.cstate = .opened)) := by
+  have hb := run_br cfg H s p zr yr
+  rw [hb.1]
+  refine ⟨?_, brStep_nonfailure cfg s.now s.br _⟩
+  intro hk
+  have hne : (run cfg H s p zr yr).2.kind ≠ .circuitOpen := by
+    intro h; rw [h] at hk; simp [Kind.isFailure] at hk
+  have hap : ∀ b, applyKind cfg s.now b (run cfg H s p zr yr).2.kind = recordFailure cfg s.now b := by
+    intro b
+    generalize (run cfg H s p zr yr).2.kind = k at hk
+    cases k with
+    | agentExc => rfl
+    | gated ev => cases ev <;> simp [Kind.isFailure] at hk; rfl
+    | _ => simp [Kind.isFailure] at hk
+  unfold brStep
+  rw [if_neg hne, hap]
+  rcases admit_cases cfg s.now s.br with ha | ⟨_, _, _, ha⟩ <;> rw [ha] <;> unfold recordFailure
+  · cases hc : s.br.cstate <;> simp
+    split <;> simp
+  · simp
+
+/-! ### never before the threshold -/
+
+/-- The breaker never opens before the failure threshold has been reached in total: starting from a closed
+    breaker with a cleared count (the initial state, the state after a manual reset, the state after a
+    successful probe), if after ANY history the breaker is not closed then at least `threshold` failure outcomes
+    occurred in that history — and the failure count itself has reached the threshold. -/
+theorem c08_never_open_before_threshold (cfg : Cfg) (H : Hashes) (s : State) (ops : List Op)
+    (hc : s.br.cstate = .closed) (h0 : s.br.failures = 0)
+    (hopen : (exec cfg H s ops).1.br.cstate ≠ .closed) :
+    cfg.threshold ≤ (failureCount (exec cfg H s ops).2 : Int) ∧
+    cfg.threshold ≤ ((exec cfg H s ops).1.br.failures : Int) := by
+  have h := exec_inv cfg H ops s (by intro hne; exact absurd hc hne)
+  have h1 := h.1 hopen
+  have h2 := h.2
+  rw [h0] at h2
+  constructor <;> omega
+
+/-- Same, from the initial state. -/
+theorem c08_never_open_before_threshold_init (cfg : Cfg) (H : Hashes) (ops : List Op)
+    (hopen : (exec cfg H init ops).1.br.cstate ≠ .closed) :
+    cfg.threshold ≤ (failureCount (exec cfg H init ops).2 : Int) :=
+  (c08_never_open_before_threshold cfg H init ops rfl rfl hopen).1
+
+/-- Invariant over every history from a state satisfying it (in particular the initial one): whenever the
+    breaker is open or half-open, its failure count is at least the threshold. -/
+theorem c08_open_implies_count_reached (cfg : Cfg) (H : Hashes) (ops : List Op)
+    (hopen : (exec cfg H init ops).1.br.cstate ≠ .closed) :
+    cfg.threshold ≤ ((exec cfg H init ops).1.br.failures : Int) :=
+  (exec_inv cfg H ops init (by intro h; exact absurd rfl h)).1 hopen
+
+/-! ### open at the latest after `threshold` consecutive failures -/
+
+/-- From ANY state (whatever happened before), after a run of consecutive failure outcomes — interleaved
+    with clock advances of any length — whose number is at least the threshold (and at least one), the
+    breaker is open. -/
+theorem c08_open_after_threshold_consecutive (cfg : Cfg) (H : Hashes) (s : State) (ops : List Op)
+    (hall : ∀ o ∈ (exec cfg H s ops).2, o.out.kind.isFailure = true ∨ ∃ d, o.op = .adv d)
+    (h1 : 1 ≤ failureCount (exec cfg H s ops).2)
+    (hthr : cfg.threshold ≤ (failureCount (exec cfg H s ops).2 : Int)) :
+    (exec cfg H s ops).1.br.cstate = .opened := by
+  have h := exec_failures cfg H ops s 0 (Or.inl rfl) hall
+  simp only [Nat.zero_add] at h
+  rcases h with h | h
+  · omega
+  · rcases h with h | ⟨_, h2, h3⟩
+    · exact h
+    · omega
+
+/-! ### while open: isolation -/
+
+/-- While the breaker is open and the recovery timeout has not elapsed since the last failure, a request is
+    answered CIRCUIT_OPEN (blocked, unsuccessful, no token) and NOTHING changes: no agent is invoked, no
+    energy is spent, the cache and the breaker are untouched — for every prompt and whatever the agents
+    would have answered. -/
+theorem c08_open_isolates (cfg : Cfg) (H : Hashes) (s : State) (p : Prompt) (zr yr : Resp)
+    (hon : cfg.breakerOn = true) (ho : s.br.cstate = .opened)
+    (ht : ∀ t, s.br.lastFailure = some t → (s.now : Int) - (t : Int) < cfg.timeout) :
+    run cfg H s p zr yr = (s, ⟨.circuitOpen, some circuitOpenResult⟩) := by
+  rw [run_eq, rejects_of_open cfg s.now s.br hon ho ht]; rfl
+
+/-- History form: from an open breaker whose last failure was at time `t`, every history of requests and
+    clock advances that stays within `timeout` of `t` is answered CIRCUIT_OPEN throughout, and at the end
+    only the clock has moved (agent-call counters, energy spent, cache and breaker are as before). -/
+theorem c08_open_isolates_until_timeout (cfg : Cfg) (H : Hashes) (ops : List Op) : ∀ (s : State) (t : Nat),
+    cfg.breakerOn = true → s.br.cstate = .opened → s.br.lastFailure = some t →
+    (∀ op ∈ ops, (∃ p zr yr, op = .run p zr yr) ∨ ∃ d, op = .adv d) →
+    ((s.now + totalAdv ops : Nat) : Int) - (t : Int) < cfg.timeout →
+    (exec cfg H s ops).1 = { s with now := s.now + totalAdv ops } ∧
+    ∀ o ∈ (exec cfg H s ops).2, (∃ d, o.op = .adv d) ∨ o.out = ⟨.circuitOpen, some circuitOpenResult⟩ := by
+  induction ops with
+  | nil => intro s t _ _ _ _ _; simp [exec, totalAdv]
+  | cons op ops ih =>
+    intro s t hon ho hl hops htime
+    rw [exec_cons]
+    simp only [List.mem_cons, forall_eq_or_imp] at hops
+    rcases hops.1 with ⟨p, zr, yr, rfl⟩ | ⟨d, rfl⟩
+    · have hrun : step cfg H s (.run p zr yr) = (s, ⟨.circuitOpen, some circuitOpenResult⟩) := by
+        simp only [step]
+        apply c08_open_isolates cfg H s p zr yr hon ho
+        intro t' ht'
+        rw [hl] at ht'; cases ht'
+        simp only [totalAdv] at htime
+        omega
+      rw [hrun]
+      have := ih s t hon ho hl hops.2 (by simpa [totalAdv] using htime)
+      refine ⟨by simpa [totalAdv] using this.1, ?_⟩
+      intro o ho'
+      simp only [List.mem_cons] at ho'
+      rcases ho' with rfl | ho'
+      · right; rfl
+      · exact this.2 o ho'
+    · have := ih { s with now := s.now + d } t hon ho hl hops.2
+        (by simp only [totalAdv] at htime; simp only; omega)
+      simp only [step]
+      refine ⟨?_, ?_⟩
+      · rw [this.1]; simp [totalAdv]; omega
+      · intro o ho'
+        simp only [List.mem_cons] at ho'
+        rcases ho' with rfl | ho'
+        · left; exact ⟨d, rfl⟩
+        · exact this.2 o ho'
+
+/-- A request is answered CIRCUIT_OPEN only by an enabled breaker that is open with its timeout not yet
+    elapsed. -/
+theorem c08_circuit_open_only_when_open (cfg : Cfg) (H : Hashes) (s : State) (p : Prompt) (zr yr : Resp)
+    (h : (run cfg H s p zr yr).2.kind = .circuitOpen) :
+    cfg.breakerOn = true ∧ s.br.cstate = .opened ∧ elapsedOk cfg s.now s.br = false := by
+  have := ((run_br cfg H s p zr yr).2.2.1).mp h
+  unfold rejects at this
+  simp at this
+  exact ⟨this.1.1, this.1.2, this.2⟩
+
+/-! ### after the timeout: half-open probe -/
+
+/-- Once the recovery timeout has elapsed since the last failure the next request is admitted as a probe: it
+    is not answered CIRCUIT_OPEN and is handled exactly as a request arriving at a half-open breaker; unless the
+    cache answers it (or the prompt cannot be encoded) the executor is consulted. -/
+theorem c08_probe_admitted_after_timeout (cfg : Cfg) (H : Hashes) (s : State) (p : Prompt) (zr yr : Resp) (t : Nat)
+    (hon : cfg.breakerOn = true) (ho : s.br.cstate = .opened) (hl : s.br.lastFailure = some t)
+    (ht : cfg.timeout ≤ (s.now : Int) - (t : Int)) :
+    (run cfg H s p zr yr).2.kind ≠ .circuitOpen ∧
+    run cfg H s p zr yr = run cfg H { s with br := { s.br with cstate := .halfOpen } } p zr yr ∧
+    ((run cfg H s p zr yr).2.kind = .cacheHit ∨ (cfg.cacheOn = true ∧ p.enc = false) ∨
+      (run cfg H s p zr yr).1.execCalls = s.execCalls + 1) := by
+  have hnr := not_rejects_of_elapsed cfg s.now s.br t hl ht
+  have hb := run_br cfg H s p zr yr
+  refine ⟨?_, ?_, ?_⟩
+  · intro h; rw [hb.2.2.1.mp h] at hnr; cases hnr
+  · have he : elapsedOk cfg s.now s.br = true := by unfold elapsedOk; simp [hl, ht]
+    have hadm : admit cfg s.now s.br = { s.br with cstate := .halfOpen } := by
+      unfold admit; simp [hon, ho, he]
+    rw [run_eq, run_eq, hnr, hadm]
+    have h2 : rejects cfg s.now { s.br with cstate := CState.halfOpen } = false := by
+      unfold rejects; simp
+    have h3 : admit cfg s.now { s.br with cstate := CState.halfOpen } = { s.br with cstate := CState.halfOpen } := by
+      unfold admit; simp
+    simp [h2, h3]
+  · rw [run_eq, hnr]
+    simp only [Bool.false_eq_true, ↓reduceIte]
+    rcases afterCircuit_out cfg H { s with br := admit cfg s.now s.br } p zr yr with h | h | h
+    · right; right; simpa using h.2
+    · obtain ⟨_, _, _, e, _, _, _, he⟩ := h
+      left; rw [he]
+    · right; left; exact ⟨h.1, h.2.1⟩
+
+/-- A successful probe (a reply that is neither cached nor blocked, arriving while half-open — or, by
+    `c08_probe_admitted_after_timeout`, while open past the timeout) closes the breaker and clears the
+    failure count. -/
+theorem c08_probe_success_closes_and_clears (cfg : Cfg) (H : Hashes) (s : State) (p : Prompt) (zr yr : Resp)
+    (r : Result) (hh : s.br.cstate = .halfOpen)
+    (hr : (run cfg H s p zr yr).2.result = some r) (hc : r.cached = false) (hb : r.blocked = false) :
+    (run cfg H s p zr yr).1.br.cstate = .closed ∧ (run cfg H s p zr yr).1.br.failures = 0 ∧
+    (run cfg H s p zr yr).2.kind = .gated .success := by
+  have hrej : rejects cfg s.now s.br = false := by unfold rejects; simp [hh]
+  have hadm : admit cfg s.now s.br = s.br := by unfold admit; simp [hh]
+  have hbr := run_br cfg H s p zr yr
+  have hk : (run cfg H s p zr yr).2.kind = .gated .success := by
+    rw [run_eq, hrej] at hr ⊢
+    simp only [Bool.false_eq_true, ↓reduceIte] at hr ⊢
+    rcases afterCircuit_out cfg H { s with br := admit cfg s.now s.br } p zr yr with h | h | h
+    · rw [h.1] at hr ⊢
+      unfold consultOut at hr ⊢
+      cases zr with
+      | exc => simp [errorResult] at hr; subst hr; simp at hb
+      | ret z =>
+        cases yr with
+        | exc => simp [errorResult] at hr; subst hr; simp at hb
+        | ret y =>
+          cases hp : p.enc <;> simp [hp] at hr ⊢
+          subst hr
+          simp only [gateResult] at hb ⊢
+          exact c08_unblocked_is_success cfg.gate z y hb
+    · obtain ⟨_, _, _, e, _, _, _, he⟩ := h
+      rw [he] at hr; simp at hr; subst hr; simp at hc
+    · rw [h.2.2] at hr; simp at hr
+  rw [hbr.1, hk]
+  unfold brStep
+  simp [hadm, applyKind, applyEvent, recordSuccess, hh]
+
+/-- A failed probe (a failure outcome while half-open — or open past the timeout) re-opens the breaker,
+    counts a trip and restarts the timeout: the last failure is now, so by `c08_open_isolates` every request
+    during the next `timeout` microseconds is turned away. -/
+theorem c08_probe_failure_reopens_and_restarts (cfg : Cfg) (H : Hashes) (s : State) (p : Prompt) (zr yr : Resp)
+    (hh : s.br.cstate = .halfOpen) (hk : (run cfg H s p zr yr).2.kind.isFailure = true) :
+    (run cfg H s p zr yr).1.br.cstate = .opened ∧
+    (run cfg H s p zr yr).1.br.lastFailure = some s.now ∧
+    (run cfg H s p zr yr).1.br.trips = s.br.trips + 1 ∧
+    (cfg.breakerOn = true → ∀ (d : Nat) (p' : Prompt) (zr' yr' : Resp), (d : Int) < cfg.timeout →
+      (run cfg H { (run cfg H s p zr yr).1 with now := (run cfg H s p zr yr).1.now + d } p' zr' yr').2
+        = ⟨.circuitOpen, some circuitOpenResult⟩) := by
+  have hadm : admit cfg s.now s.br = s.br := by unfold admit; simp [hh]
+  have hbr := run_br cfg H s p zr yr
+  have hne : (run cfg H s p zr yr).2.kind ≠ .circuitOpen := by
+    intro h; rw [h] at hk; simp [Kind.isFailure] at hk
+  have hap : applyKind cfg s.now s.br (run cfg H s p zr yr).2.kind = recordFailure cfg s.now s.br := by
+    generalize (run cfg H s p zr yr).2.kind = k at hk
+    cases k with
+    | agentExc => rfl
+    | gated ev => cases ev <;> simp [Kind.isFailure] at hk; rfl
+    | _ => simp [Kind.isFailure] at hk
+  have hbr' : (run cfg H s p zr yr).1.br = recordFailure cfg s.now s.br := by
+    rw [hbr.1]; unfold brStep; rw [if_neg hne, hadm, hap]
+  have h1 : (run cfg H s p zr yr).1.br.cstate = .opened := by rw [hbr']; simp [recordFailure, hh]
+  have h2 : (run cfg H s p zr yr).1.br.lastFailure = some s.now := by rw [hbr']; simp [recordFailure, hh]
+  refine ⟨h1, h2, by rw [hbr']; simp [recordFailure, hh], ?_⟩
+  intro hon d p' zr' yr' hd
+  rw [c08_open_isolates cfg H _ p' zr' yr' hon (by simpa using h1)]
+  intro t ht'
+  simp only at ht'
+  rw [h2] at ht'; cases ht'
+  rw [hbr.2.1]
+  simp only; omega
+
+/-! ### intentional blocks, cache hits, disabled breaker, reset -/
+
+/-- Intentional blocks are never counted as failures: a request on which either agent votes BLOCK (and no
+    agent raises) leaves the failure count, the total error count, the last-failure stamp and the trip count
+    exactly as they were and cannot open the breaker — in every state, under every gate logic. -/
+theorem c08_intentional_block_not_failure (cfg : Cfg) (H : Hashes) (s : State) (p : Prompt) (z y : Cls)
+    (h : z = .block ∨ y = .block) :
+    (run cfg H s p (.ret z) (.ret y)).2.kind.isFailure = false ∧
+    (run cfg H s p (.ret z) (.ret y)).1.br.failures ≤ s.br.failures ∧
+    (run cfg H s p (.ret z) (.ret y)).1.br.totalErrors = s.br.totalErrors ∧
+    (run cfg H s p (.ret z) (.ret y)).1.br.lastFailure = s.br.lastFailure ∧
+    (run cfg H s p (.ret z) (.ret y)).1.br.trips = s.br.trips ∧
+    ((run cfg H s p (.ret z) (.ret y)).1.br.cstate = .opened → s.br.cstate = .opened) := by
+  have hk : (run cfg H s p (.ret z) (.ret y)).2.kind.isFailure = false := by
+    rw [run_eq]
+    cases hr : rejects cfg s.now s.br
+    · simp only [Bool.false_eq_true, ↓reduceIte]
+      rcases afterCircuit_out cfg H { s with br := admit cfg s.now s.br } p (.ret z) (.ret y) with h' | h' | h'
+      · rw [h'.1]
+        unfold consultOut
+        cases hp : p.enc <;> simp [Kind.isFailure]
+        have := c08_block_vote_never_failure cfg.gate z y h
+        simp only [gateResult]
+        generalize classifyRun (applyGate cfg.gate z y).success (applyGate cfg.gate z y).blocked z y = ev at this
+        cases ev <;> simp_all
+      · obtain ⟨_, _, _, e, _, _, _, he⟩ := h'
+        rw [he]; rfl
+      · rw [h'.2.2]; rfl
+    · simp [Kind.isFailure]
+  have := (c08_failure_recorded cfg H s p (.ret z) (.ret y)).2 hk
+  exact ⟨hk, this.2.1, this.1, this.2.2.1, this.2.2.2.1, this.2.2.2.2⟩
+
+/-- A history without failure outcomes (successes, intentional blocks, cache hits, clock advances, resets, …)
+    never opens a closed breaker. -/
+theorem c08_no_failures_never_opens (cfg : Cfg) (H : Hashes) (ops : List Op) : ∀ (s : State),
+    s.br.cstate ≠ .opened → (∀ o ∈ (exec cfg H s ops).2, o.out.kind.isFailure = false) →
+    (exec cfg H s ops).1.br.cstate ≠ .opened := by
+  induction ops with
+  | nil => intro s h _; simpa [exec] using h
+  | cons op ops ih =>
+    intro s h hall
+    rw [exec_cons] at hall ⊢
+    simp only [List.mem_cons, forall_eq_or_imp] at hall
+    apply ih _ _ hall.2
+    cases op with
+    | run p zr yr =>
+      simp only [step] at hall ⊢
+      intro ho
+      exact h (((c08_failure_recorded cfg H s p zr yr).2 hall.1).2.2.2.2 ho)
+    | adv d => simpa [step] using h
+    | resetcb => simp [step, resetBreaker]
+    | clearcache => simpa [step] using h
+
+/-- A cache hit is neither a success nor a failure: it leaves the breaker as admission left it (an open
+    breaker past its timeout becomes half-open and stays so), consults no agent and spends nothing. -/
+theorem c08_cache_hit_neutral (cfg : Cfg) (H : Hashes) (s : State) (p : Prompt) (zr yr : Resp)
+    (hk : (run cfg H s p zr yr).2.kind = .cacheHit) :
+    (run cfg H s p zr yr).1 = { s with br := admit cfg s.now s.br } := by
+  rw [run_eq] at hk ⊢
+  cases hr : rejects cfg s.now s.br
+  · simp only [hr, Bool.false_eq_true, ↓reduceIte] at hk ⊢
+    rcases afterCircuit_out cfg H { s with br := admit cfg s.now s.br } p zr yr with h | h | h
+    · rw [h.1] at hk
+      unfold consultOut at hk
+      cases zr <;> cases yr <;> simp at hk
+      split at hk <;> simp at hk
+    · exact h.2.2.1
+    · rw [h.2.2] at hk; simp at hk
+  · simp [hr] at hk
+
+/-- With the breaker disabled no request is ever turned away, in any state: the executor is consulted unless
+    the cache answers (or the prompt cannot be encoded for the cache key). -/
+theorem c08_disabled_agents_consulted (cfg : Cfg) (H : Hashes) (s : State) (p : Prompt) (zr yr : Resp)
+    (hoff : cfg.breakerOn = false) :
+    (run cfg H s p zr yr).2.kind ≠ .circuitOpen ∧
+    ((run cfg H s p zr yr).2.kind = .cacheHit ∨ (cfg.cacheOn = true ∧ p.enc = false) ∨
+      (run cfg H s p zr yr).1.execCalls = s.execCalls + 1) := by
+  have hnr : rejects cfg s.now s.br = false := by unfold rejects; simp [hoff]
+  have hb := run_br cfg H s p zr yr
+  refine ⟨?_, ?_⟩
+  · intro h; rw [hb.2.2.1.mp h] at hnr; cases hnr
+  · rw [run_eq, hnr]
+    simp only [Bool.false_eq_true, ↓reduceIte]
+    rcases afterCircuit_out cfg H { s with br := admit cfg s.now s.br } p zr yr with h | h | h
+    · right; right; simpa using h.2
+    · obtain ⟨_, _, _, e, _, _, _, he⟩ := h
+      left; rw [he]
+    · right; left; exact ⟨h.1, h.2.1⟩
+
+/-- Manual reset closes the breaker and clears the failure count (nothing else changes); by
+    `c08_never_open_before_threshold` it then takes `threshold` new failures to open it again. -/
+theorem c08_reset (cfg : Cfg) (H : Hashes) (s : State) :
+    (step cfg H s .resetcb).1.br.cstate = .closed ∧ (step cfg H s .resetcb).1.br.failures = 0 ∧
+    (step cfg H s .resetcb).1 = { s with br := { s.br with cstate := .closed, failures := 0 } } := by
+  simp [step, resetBreaker]
+
+/-! ### Non-vacuity: concrete histories meeting the hypotheses -/
+
+private def cfg2 : Cfg := { threshold := 2, timeout := 60 }
+private def pr (n : Nat) : Prompt := ⟨n, true⟩
+private def efail (n : Nat) : Op := .run (pr n) (.ret .failure) (.ret .permit)
+private def ok (n : Nat) : Op := .run (pr n) (.ret .execute) (.ret .permit)
+private def veto (n : Nat) : Op := .run (pr n) (.ret .execute) (.ret .block)
+
+/-- two executor failures at threshold 2 open the breaker (hypotheses of `c08_open_after_threshold_consecutive`
+    and of `c08_never_open_before_threshold` hold on this history) -/
+example : (exec cfg2 idHashes init [efail 1, .adv 5, efail 2]).1.br.cstate = .opened ∧
+    failureCount (exec cfg2 idHashes init [efail 1, .adv 5, efail 2]).2 = 2 ∧
+    (∀ o ∈ (exec cfg2 idHashes init [efail 1, .adv 5, efail 2]).2, o.out.kind.isFailure = true ∨ ∃ d, o.op = .adv d) := by
+  refine ⟨by decide, by decide, ?_⟩
+  intro o ho
+  simp only [exec, step, List.mem_cons, List.not_mem_nil, or_false] at ho
+  rcases ho with rfl | rfl | rfl
+  · left; decide
+  · right; exact ⟨5, rfl⟩
+  · left; decide
+
+/-- while open and inside the timeout a request is turned away (hypotheses of `c08_open_isolates`), after the
+    timeout a successful probe closes and clears, a failed probe re-opens -/
+example :
+    let s := (exec cfg2 idHashes init [efail 1, efail 2, .adv 59]).1
+    s.br.cstate = .opened ∧ s.br.lastFailure = some 0 ∧
+    (run cfg2 idHashes s (pr 3) (.ret .execute) (.ret .permit)).2.kind = .circuitOpen ∧
+    (exec cfg2 idHashes s [.adv 1, ok 3]).1.br.cstate = .closed ∧
+    (exec cfg2 idHashes s [.adv 1, ok 3]).1.br.failures = 0 ∧
+    (exec cfg2 idHashes s [.adv 1, efail 3]).1.br.cstate = .opened ∧
+    (exec cfg2 idHashes s [.adv 1, efail 3]).1.br.lastFailure = some 60 := by decide
+
+/-- intentional blocks (assessor veto) any number of times leave a threshold-1 breaker closed, while one
+    executor failure opens it -/
+example : (exec { threshold := 1 } idHashes init [veto 1, veto 2, veto 3]).1.br.cstate = .closed ∧
+    (exec { threshold := 1 } idHashes init [veto 1, efail 2]).1.br.cstate = .opened := by decide
+
+/-- a half-open state reached through a history (hypothesis `s.br.cstate = .halfOpen` of the probe theorems):
+    a cache hit admitted as probe leaves the breaker half-open -/
+example : (exec cfg2 idHashes init [ok 7, efail 1, efail 2, .adv 60, ok 7]).1.br.cstate = .halfOpen := by decide
 
 end Operon.Cffl
